@@ -210,13 +210,22 @@ func (fs *FS) Rename(oldname, newname string) error {
 	}
 	newFileWriter, ok := newFile.(io.Writer)
 	if !ok {
+		_ = newFile.Close()
+		_ = hackpadfs.Remove(newMount, newSubPath)
 		return &hackpadfs.LinkError{Op: "rename", Old: oldname, New: newname, Err: hackpadfs.ErrPermission}
 	}
-	defer func() { _ = newFile.Close() }()
 	_, err = io.Copy(newFileWriter, oldFile)
+	closeErr := newFile.Close()
+	if err == nil {
+		err = closeErr
+	}
+	if err == nil {
+		err = hackpadfs.Remove(oldMount, oldSubPath)
+	}
 	if err != nil {
+		// do not leave a partial or duplicate file behind at the destination
 		_ = hackpadfs.Remove(newMount, newSubPath)
 		return renameErr(err, oldname, newname)
 	}
-	return renameErr(hackpadfs.Remove(oldMount, oldSubPath), oldname, newname)
+	return nil
 }
